@@ -39,6 +39,10 @@ def run(ctx):
         cases.append(c)
     if ctx.quick:
         cases = [c for i, c in enumerate(cases) if i % 3 == ctx.seed % 3]
+    # one device fault (raise / failing status) at every device call of every corpus plan
+    for c in corpus.single_fault_cases(names, kinds=("raise", "status_fail")):
+        c["probe"] = "run"
+        cases.append(c)
     ctx.sweep(cases, check_case)
     ctx.extra["sweep_cases"] = len(cases)
     e1common.generated(ctx, check_case, n=ctx.pick(800, 30000), profile="general_runprobe")
